@@ -8,7 +8,9 @@ SPEC = dict(
     level_text=("Plan executor with real threads against the real TCP and UDP engines on loopback: generated actor scripts over "
                 "the public API race one teardown actor (stop from outside, drop of the owning reference from outside, owner "
                 "released inside an I/O-thread callback, stop inside a callback) over 1-3 start/stop cycles, with seeded "
-                "micro-delays in the actors and inside the callbacks. The same plans run under ASan+UBSan and under TSan. "
+                "micro-delays in the actors and inside the callbacks; the ASan build additionally links a pthread_mutex_lock "
+                "interposer (harness/c05_sched.cpp) that, driven by a plan seed, yields/sleeps before lock acquisitions to "
+                "widen check-then-lock windows. The same plans run under ASan+UBSan and under TSan (no interposer). "
                 "Exploration is the right level: the property quantifies over thread schedules; perturbation is statistical."),
     level_note=("Sanitizer verdicts are sound because of the ownership discipline of the harness: owner actors co-own the "
                 "transport for each call, and a destruction is started only after every borrowed-reference call was observed "
@@ -27,10 +29,12 @@ SPEC = dict(
                  "one teardown actor per cycle (concurrent stop() calls are outside the documented contract)",
                  "bounded-wait bound B = 30 s per call; such failures must reproduce 3/3"],
     units=[
-        pbt("c05_teardown", "harness/c05_teardown.cpp", dict(
+        # ASan+UBSan build with the mutex-lock schedule perturbation linked in
+        pbt("c05_teardown", ["harness/c05_teardown.cpp", "harness/c05_sched.cpp"], dict(
             teardown_tcp=P(40, 500, 8, 16, q_secs=40, t_secs=500, extra=_SHRINK),
             teardown_udp=P(40, 500, 6, 12, q_secs=40, t_secs=500, extra=_SHRINK),
         )),
+        # TSan build WITHOUT the interposer (it would bypass TSan's interceptors)
         pbt("c05_tsan", "harness/c05_teardown.cpp", dict(
             teardown_tcp=P(20, 250, 8, 16, q_secs=40, t_secs=500, extra=_SHRINK),
             teardown_udp=P(20, 250, 6, 12, q_secs=40, t_secs=500, extra=_SHRINK),
